@@ -33,7 +33,7 @@ var (
 )
 
 type aop struct {
-	K     string // start stop close req-router req-other probe announce reply offer wait
+	K     string // start stop close req-router req-other probe announce reply offer confirm wait
 	T     int    // target index
 	P     int
 	Delay time.Duration // virtual time to sleep before the op
@@ -64,7 +64,7 @@ type c13Run struct {
 	idx  int64
 	ops  []aop
 	viol bool
-	nForged, nCorrective, nReplies, nRejects, nCycles, nRelayed, nAltStarts, nUnicastReq int
+	nForged, nCorrective, nReplies, nRejects, nCycles, nRelayed, nAltStarts, nUnicastReq, nConfirms int
 }
 
 func (r *c13Run) history() {
@@ -188,6 +188,12 @@ func (r *c13Run) history() {
 				feed(arpFrom(tgt, 1, tgt.IP, tgt.IP, bcastMAC))
 			case "reply":
 				feed(arpFrom(tgt, 2, tgt.IP, nic.HostIP, host))
+			case "confirm":
+				// the DHCP handler confirms the station's address (ACK of a selecting / rebooting REQUEST): the confirmed address
+				// replaces whatever offer was on record, so an offer for another address is not outstanding any more
+				s.DHCPv4Update(tgt.MAC, tgt.IP, packet.NameEntry{})
+				offers[string(tgt.MAC)] = tgt.IP
+				r.nConfirms++
 			case "offer":
 				a := []netip.Addr{netip.MustParseAddr("192.168.0.77"), tgt.IP, {}}[o.P%3]
 				s.SetDHCPv4IPOffer(tgt.MAC, a, packet.NameEntry{})
@@ -469,6 +475,9 @@ func randAop(r *rand.Rand) aop {
 		o.K = "reply"
 	case k < 19:
 		o.K = "offer"
+		if r.Intn(3) == 0 {
+			o.K = "confirm"
+		}
 	default:
 		o.K = "wait"
 	}
@@ -496,6 +505,7 @@ func runC13(c *wk.Ctx) {
 		runBubble(c, idx, func() { run.history() })
 		c.Obs("relayed_requests_mixed_hunt_state", int64(run.nRelayed))
 		c.Obs("router_requests_sent_unicast", int64(run.nUnicastReq))
+		c.Obs("dhcp_confirmations", int64(run.nConfirms))
 		c.Obs("starthunt_with_another_ip", int64(run.nAltStarts))
 		if !run.viol && run.nForged > 0 && run.nCorrective > 0 {
 			c.Class(fmt.Sprintf("forged~%d corrective~%d replies=%v rejects=%v", min(run.nForged/4, 6), min(run.nCorrective, 3), run.nReplies > 0, run.nRejects > 0))
